@@ -203,3 +203,66 @@ func H_C12_concurrent() {
 		}
 	}
 }
+
+// H_C12_independent: two Configs that differ in their JSON formatting options are used
+// at the same time from two goroutines; each call must store exactly what it stores when
+// issued alone (Configs are independent of each other, also under concurrency). Stores to
+// package-level variables of the library are scheduling points (vxrt.SharedGlobals), so a
+// package-level scratch value shared between calls shows up as an interleaving.
+func H_C12_independent() {
+	vxrt.CI(false)
+	dir := vxrt.Dir()
+	vxrt.SharedGlobals("github.com/gkampitakis/go-snaps")
+	indents := [2]string{"  ", "\t"}
+	widths := [2]int{80, 4}
+	sort := [2]bool{false, true}
+	var cfg [2]*Config
+	for g := 0; g < 2; g++ {
+		cfg[g] = WithConfig(Dir(dir), Filename([]string{"fa", "fb"}[g]), JSON(JSONConfig{Indent: indents[g], Width: widths[g], SortKeys: sort[g]}))
+	}
+	const doc = `{"b":[1,2],"a":"x"}`
+	api := vxrt.Choice("api", 2)
+	call := func(g int, t *mockT) {
+		if api == 0 {
+			cfg[g].MatchJSON(t, doc)
+		} else {
+			cfg[g].MatchStandaloneJSON(t, doc)
+		}
+	}
+	// what each call stores alone
+	var alone [2]string
+	for g := 0; g < 2; g++ {
+		t := newT([]string{"TestA", "TestB"}[g])
+		call(g, t)
+		t.end()
+		alone[g] = dumpDir(dir)
+		for _, nme := range dirNames(dir) {
+			removeFile(dir + "/" + nme)
+		}
+	}
+	vxrt.Assert(alone[0] != alone[1], "C12:harness-configs-format-differently")
+	ts := [2]*mockT{newT("TestA"), newT("TestB")}
+	var wg sync.WaitGroup
+	wg.Add(2)
+	for g := 0; g < 2; g++ {
+		g := g
+		go func() {
+			defer wg.Done()
+			call(g, ts[g])
+		}()
+	}
+	wg.Wait()
+	ts[0].end()
+	ts[1].end()
+	vxrt.Assert(len(ts[0].errors)+len(ts[1].errors) == 0, "C12:concurrent-calls-succeed")
+	// the directory now holds exactly the two lone results
+	both := dumpDir(dir)
+	for _, nme := range dirNames(dir) {
+		if len(nme) >= 2 && nme[:2] == "fb" {
+			removeFile(dir + "/" + nme)
+		}
+	}
+	onlyA := dumpDir(dir)
+	vxrt.Assert(onlyA == alone[0], "C12:config-A-result-independent-of-concurrent-config-B")
+	vxrt.Assert(len(both) == len(alone[0])+len(alone[1]), "C12:config-B-result-independent-of-concurrent-config-A")
+}
